@@ -262,31 +262,51 @@ fn main() {
         let _ = corpus::CALLS[fi](0);
         let mut bad = 0u64;
         let mut worst = String::new();
-        let reps = (rounds / 4).max(200);
+        let reps = (rounds * 8).max(3000);
+        // persistent workers spinning on a generation counter, so that their resets really overlap
+        let nw = threads.min(3).max(2);
+        let gen = Arc::new(std::sync::atomic::AtomicU64::new(0));
+        let done = Arc::new(std::sync::atomic::AtomicU64::new(0));
+        let stopw = Arc::new(std::sync::atomic::AtomicBool::new(false));
+        let mut hs = Vec::new();
+        for _ in 0..nw {
+            let (gen, done, stopw, name) = (gen.clone(), done.clone(), stopw.clone(), sp.name.clone());
+            hs.push(std::thread::spawn(move || {
+                let mut seen = 0u64;
+                loop {
+                    while gen.load(Ordering::Acquire) == seen {
+                        if stopw.load(Ordering::Acquire) {
+                            return;
+                        }
+                        std::hint::spin_loop();
+                    }
+                    seen += 1;
+                    cachelito_core::stats_registry::reset(&name);
+                    done.fetch_add(1, Ordering::AcqRel);
+                }
+            }));
+        }
         for rep in 0..reps {
             let k = 1 + (rep % 3);
             for _ in 0..k {
                 rt::NEXT_TL.with(|n| n.set(Some(rt::Next { n: 1, ok: true, len: 4, ci: true, io: false })));
                 let _ = corpus::CALLS[fi](0);
             }
-            let barrier = Arc::new(Barrier::new(threads.min(4)));
-            let mut hs = Vec::new();
-            for _ in 0..threads.min(4) {
-                let (barrier, name) = (barrier.clone(), sp.name.clone());
-                hs.push(std::thread::spawn(move || {
-                    barrier.wait();
-                    cachelito_core::stats_registry::reset(&name);
-                }));
+            gen.fetch_add(1, Ordering::AcqRel);
+            while done.load(Ordering::Acquire) < (rep as u64 + 1) * nw as u64 {
+                std::hint::spin_loop();
             }
-            join_all(&mut hs, "concurrent-resets", fi, &sp.name);
             let st = verif_harness::l2::stats_of(&sp.name);
             if st != "0,0" {
                 bad += 1;
                 if worst.is_empty() {
                     worst = st.replace(',', "+");
                 }
+                cachelito_core::stats_registry::reset(&sp.name);
             }
         }
+        stopw.store(true, Ordering::Release);
+        join_all(&mut hs, "concurrent-resets", fi, &sp.name);
         println!("HR|{}|{}|{}|{}|{}", fi, sp.name, reps, bad, if worst.is_empty() { "-".to_string() } else { worst });
     }
     // memory-aware stores under contention (C05 / C18): every thread stores its own keys with values of about 60 % of
